@@ -52,8 +52,50 @@ def extra(ctx):
     res.notes.append(f"sub-domain enumerated completely: every sequence of <= {depth} subscription-control / publish operations "
                      "(16 symbols, 2 acting clients + a logger module), ACK accounting after every round")
     res.merge(run_shards(shard_pool, [(derive_seed(ctx.seed, 900 + i), ctx.scale(1, 12)) for i in range(4)]))
+    sizes = (300, 70) if ctx.quick else (300, 70, 1100, 5000)
+    res.merge(run_shards(shard_many, [(tc, n, kinds) for tc in (False, True) for n in sizes
+                                      for kinds in (["SUBSCRIBE"], ["SUBSCRIBE", "RESUME"])]))
+    res.notes.append("one module holding 70 ... 300 (thorough: 5000) distinct individual subscriptions: every SUBSCRIBE / RESUME for a further "
+                     "type, and later PAUSE / RESUME / UNSUBSCRIBE requests, acknowledged exactly once with a copy at the logger")
     res.notes.append("full dynamic-id pool next to a logger: all 100 dynamic ids assigned, further dynamic requests (refused: no "
                      "acknowledgement, no logger copy), departures and re-use; ACK accounting (requester and logger copies) after every round")
+    return res
+
+
+def many_subs_ops(n, kinds):
+    """One module issues n subscription requests for n DISTINCT message types (then pauses / resumes / unsubscribes some of
+    them), next to a monitor and a logger: every request is acknowledged, however many subscriptions the module already holds."""
+    from vlib.monitors import monitor_setup
+
+    ops = list(monitor_setup()) + [{"op": "_drain"}, {"op": "open"},
+                                   {"op": "connect", "c": 2, "ver": "v2v1", "id": 20, "logger": 0, "daemon": 0, "multi": 0, "name": "many", "pid": 20},
+                                   {"op": "_drain"}]
+    for k in range(n):
+        ops.append({"op": "sub", "c": 2, "kind": kinds[k % len(kinds)], "type": 3000 + k})
+        if k % 8 == 7:
+            ops.append({"op": "_drain"})
+    ops.append({"op": "_drain"})
+    for k in range(0, n, 37):
+        ops.append({"op": "sub", "c": 2, "kind": ["PAUSE", "RESUME", "UNSUBSCRIBE", "SUBSCRIBE"][k % 4], "type": 3000 + k})
+    ops.append({"op": "_drain"})
+    return ops
+
+
+def shard_many(tc, n, kinds):
+    from vlib.common import Result, Violation
+    from vlib.script import run_script
+
+    res = Result()
+    cfg = {"timecode": tc, "timing": False, "log": "silent"}
+    ops = many_subs_ops(n, kinds)
+    try:
+        run_script(cfg, ops, {"ack", "framing"}, "C19", res, harvest=lambda w, r: None)
+    except Violation as e:
+        res.add_finding(e.key, e.what, {"kind": "pool", "cfg": cfg, "ops": ops})
+    res.evaluations += 1
+    res.count("many-distinct-subscriptions-cases")
+    res.count("many-distinct-subscriptions-requests", n)
+    res.shape("many-subs", tc, n >> 6, tuple(kinds))
     return res
 
 
